@@ -112,6 +112,15 @@ def e2e_case(draw):
         twin = (g.replace("'", "''"), c) if draw(st.booleans()) else (g + "'/'" + c, draw(name_st))
         if twin not in pairs:
             pairs.append(twin)
+    if draw(st.integers(0, 2)) == 0:
+        # names that differ only in the case of a letter are different names
+        for (g, c) in list(pairs):
+            if c.swapcase() != c and (g, c.swapcase()) not in pairs:
+                pairs.append((g, c.swapcase()))
+                break
+            if g.swapcase() != g and (g.swapcase(), c) not in pairs:
+                pairs.append((g.swapcase(), c))
+                break
     return {'pairs': [list(p) for p in pairs], 'via': draw(st.sampled_from(['writer', 'writer_multi', 'writer_reuse', 'writer_shuffled', 'encoder'])),
             'extra_groups': draw(st.lists(name_st, max_size=2, unique=True))}
 
